@@ -35,9 +35,9 @@ Proof.
   - intros [[mid [Hb [y [Hw Hy]]]] Hmin]. split.
     + exists mid. split; [exact Hb|]. pose proof (wl_oeq n L L' H mid i j Hi Hj Hb) as E. rewrite Hw in E.
       destruct (wl L' i mid j) as [y'|]; cbn [oeq] in E; [|contradiction]. exists y'. split; [reflexivity|]. lra.
-    + intros mid y Hb Hw. pose proof (wl_oeq n L L' H mid i j Hi Hj Hb) as E. rewrite Hw in E.
-      destruct (wl L i mid j) as [y'|] eqn:Ew; cbn [oeq] in E; [|contradiction].
-      specialize (Hmin mid y' Hb Ew). lra.
+    + intros mid2 y2 Hb2 Hw2. pose proof (wl_oeq n L L' H mid2 i j Hi Hj Hb2) as E. rewrite Hw2 in E.
+      destruct (wl L i mid2 j) as [y'|] eqn:Ew; cbn [oeq] in E; [|contradiction].
+      specialize (Hmin mid2 y' Hb2 Ew). lra.
   - intros Hnone mid Hb. pose proof (wl_oeq n L L' H mid i j Hi Hj Hb) as E. rewrite (Hnone mid Hb) in E.
     destruct (wl L' i mid j); cbn [oeq] in E; [contradiction|reflexivity].
 Qed.
@@ -54,7 +54,7 @@ Lemma rel01_nonneg n A W : rel01 n A W -> forall i j, (i < n)%nat -> (j < n)%nat
 Proof. intros H i j Hi Hj. destruct (H i j Hi Hj) as [[_ E]|[_ E]]; lra. Qed.
 
 Lemma nq_inj a b : nq a == nq b -> a = b.
-Proof. unfold nq. intros H. apply inject_Z_injective in H. lia. Qed.
+Proof. unfold nq. intros H. apply (proj1 (inject_Z_injective _ _)) in H. lia. Qed.
 
 (* ---------- distance_wei = distance_bin on 0/1 input ---------- *)
 (* D (weighted distances): inf where distance_bin has inf, the same number elsewhere, diagonal included;
